@@ -58,13 +58,20 @@ theorem realm?_append_new {rt : Router} {A : String} (h : rt.realm? A = none) (r
 
 /-! ### a closed router -/
 
-/-- a closed router with an empty table: no operation changes it or produces anything; attaching
-    is refused -/
+/-- the time a list of operations lets pass: the sum of its ticks -/
+def elapsedAll (ops : List ROp) : Nat := (ops.map ROp.elapsed).sum
+
+theorem elapsedAll_nil : elapsedAll [] = 0 := rfl
+theorem elapsedAll_cons (op : ROp) (ops : List ROp) : elapsedAll (op :: ops) = op.elapsed + elapsedAll ops := by
+  simp [elapsedAll]
+
+/-- a closed router with an empty table: no operation changes it — except that the clock goes on
+    (`.tick ms` adds `ms` to `now`, `ROp.elapsed`) — or produces anything; attaching is refused -/
 theorem step_closed_empty {rt : Router} (hc : rt.closed = true) (hr : rt.realms = []) (op : ROp) :
-    (rt.step op).2 = rt ∧ (rt.step op).1.out = [] ∧ (rt.step op).1.closed = [] ∧
+    (rt.step op).2 = { rt with now := rt.now + op.elapsed } ∧ (rt.step op).1.out = [] ∧ (rt.step op).1.closed = [] ∧
     (rt.step op).1.panic = none ∧ (rt.step op).1.refused = isAttach op := by
   have hself : ({ rt with realms := [], closed := true } : Router) = rt := by
-    obtain ⟨a, b, c, d, e⟩ := rt
+    obtain ⟨a, b, c, d, e, f⟩ := rt
     simp only at hc hr
     subst hc hr
     rfl
@@ -81,15 +88,16 @@ theorem step_closed_empty {rt : Router} (hc : rt.closed = true) (hr : rt.realms 
     exact ⟨rfl, rfl, rfl, rfl, rfl⟩
   | rnd n =>
     rw [step_rnd, hr]
+    exact ⟨rfl, rfl, rfl, rfl, rfl⟩
+  | close =>
+    rw [step_close, hr]
     refine ⟨?_, rfl, rfl, rfl, rfl⟩
-    show ({ rt with realms := [] } : Router) = rt
-    obtain ⟨a, b, c, d, e⟩ := rt
+    show ({ rt with realms := [], closed := true } : Router) = { rt with realms := [], now := rt.now + 0 }
+    rw [hself]
+    obtain ⟨a, b, c, d, e, f⟩ := rt
     simp only at hr
     subst hr
     rfl
-  | close =>
-    rw [step_close, hr]
-    exact ⟨hself, rfl, rfl, rfl, rfl⟩
   | removeRealm A =>
     rw [step_remove_none (realm?_nil hr A)]
     exact ⟨rfl, rfl, rfl, rfl, rfl⟩
@@ -97,12 +105,16 @@ theorem step_closed_empty {rt : Router} (hc : rt.closed = true) (hr : rt.realms 
     rw [step_add, if_pos (by rw [hc]; rfl)]
     exact ⟨rfl, rfl, rfl, rfl, rfl⟩
 
+/-- … hence a closed router with an empty table stays what it is under every history, up to the
+    clock, which has advanced by the ticks of the history -/
 theorem runROps_closed_empty {rt : Router} (hc : rt.closed = true) (hr : rt.realms = []) :
-    ∀ ops : List ROp, runROps rt ops = rt
+    ∀ ops : List ROp, runROps rt ops = { rt with now := rt.now + elapsedAll ops }
   | [] => rfl
   | op :: ops => by
-    rw [runROps_cons, (step_closed_empty hc hr op).1]
-    exact runROps_closed_empty hc hr ops
+    rw [runROps_cons, (step_closed_empty hc hr op).1,
+      runROps_closed_empty (rt := { rt with now := rt.now + op.elapsed }) hc hr ops, elapsedAll_cons]
+    show ({ rt with now := rt.now + op.elapsed + elapsedAll ops } : Router) = _
+    rw [Nat.add_assoc]
 
 /-- `closed` is set by `Router.Close` only, which empties the table; nothing is added afterwards -/
 theorem closed_empty_step {rt : Router} (h : rt.closed = true → rt.realms = []) (op : ROp) :
@@ -214,11 +226,12 @@ theorem realm?_removed (rt : Router) (A : String) :
 theorem remove_fields (rt : Router) (A : String) :
     (rt.step (.removeRealm A)).2.realm? A = none ∧ (rt.step (.removeRealm A)).2.realms = rt.others A ∧
     (rt.step (.removeRealm A)).2.sessRealm = rt.sessRealm ∧ (rt.step (.removeRealm A)).2.closed = rt.closed ∧
-    (rt.step (.removeRealm A)).2.template = rt.template ∧ (rt.step (.removeRealm A)).2.created = rt.created := by
+    (rt.step (.removeRealm A)).2.template = rt.template ∧ (rt.step (.removeRealm A)).2.created = rt.created ∧
+    (rt.step (.removeRealm A)).2.now = rt.now := by
   cases hr : rt.realm? A with
   | none =>
     rw [step_remove_none hr]
-    refine ⟨hr, ?_, rfl, rfl, rfl, rfl⟩
+    refine ⟨hr, ?_, rfl, rfl, rfl, rfl, rfl⟩
     unfold others
     symm
     apply List.filter_eq_self.mpr
@@ -226,7 +239,7 @@ theorem remove_fields (rt : Router) (A : String) :
     simpa using realm?_none hr p hp
   | some r =>
     rw [step_remove_some hr]
-    exact ⟨realm?_removed rt A, rfl, rfl, rfl, rfl, rfl⟩
+    exact ⟨realm?_removed rt A, rfl, rfl, rfl, rfl, rfl, rfl⟩
 
 theorem ensureRealm_no_template {rt : Router} (h : rt.template = none) (A : String) : rt.ensureRealm A = rt := by
   rcases ensureRealm_cases rt A with e | ⟨_, t, _, ht, _, _⟩
@@ -236,7 +249,7 @@ theorem ensureRealm_no_template {rt : Router} (h : rt.template = none) (A : Stri
 theorem ensureRealm_template {rt : Router} {A : String} {t : Config} {r0 : Realm} (hr : rt.realm? A = none)
     (ht : rt.template = some t) (hc : Realm.create { t with uri := A } = some r0) :
     rt.ensureRealm A =
-      { rt with realms := rt.realms ++ [(A, { r0 with pubCount := rt.created * 1000000 })],
+      { rt with realms := rt.realms ++ [(A, { r0 with pubCount := rt.created * 1000000, now := rt.now })],
                 created := rt.created + 1 } := by
   unfold ensureRealm
   rw [hr, ht]
@@ -268,7 +281,7 @@ theorem step_tick_names (rt : Router) (ms : Nat) :
     (rt.step (.tick ms)).2.realms.map (·.1) = rt.realms.map (·.1) ∧
     (rt.step (.tick ms)).2.template = rt.template := by
   rw [step_tick_eq]
-  exact tickFold_names ms rt.realms ({}, rt)
+  exact tickFold_names ms rt.realms ({}, { rt with now := rt.now + ms })
 
 /-- a realm that is absent stays absent (and no template appears) under every operation except
     `addRealm` with that name, when there is no template -/
@@ -358,6 +371,12 @@ theorem created_ok {cfg : Config} {r : Realm} (h : Realm.create cfg = some r) (n
   obtain ⟨hi, hp, _⟩ := create_rinv h
   exact ⟨hi.of_parts rfl hi.binv hi.dinv hi.bmem hi.dref hi.callers hi.retr hi.tasks hi.inb rfl, Or.inl hp⟩
 
+/-- … also when it starts at the router's current time (a realm created later) -/
+theorem created_ok_at {cfg : Config} {r : Realm} (h : Realm.create cfg = some r) (n t : Nat) :
+    RealmInv ({ r with pubCount := n, now := t } : Realm) ∧ FuelOnly ({ r with pubCount := n, now := t } : Realm).panic := by
+  obtain ⟨hi, hp, _⟩ := create_rinv h
+  exact ⟨hi.of_parts rfl hi.binv hi.dinv hi.bmem hi.dref hi.callers hi.retr hi.tasks hi.inb rfl, Or.inl hp⟩
+
 theorem realmsOk_ensureRealm {rt : Router} (h : RealmsOk rt) (name : String) : RealmsOk (rt.ensureRealm name) := by
   rcases ensureRealm_cases rt name with e | ⟨_, t, r, _, hcr, e⟩
   · rw [e]; exact h
@@ -366,7 +385,7 @@ theorem realmsOk_ensureRealm {rt : Router} (h : RealmsOk rt) (name : String) : R
     rcases List.mem_append.mp hp with hp | hp
     · exact h p hp
     · rw [List.mem_singleton.mp hp]
-      exact created_ok hcr _
+      exact created_ok_at hcr _ _
 
 theorem tickFold_all (Q : Realm → Prop) (ms : Nat) : ∀ (l : List (String × Realm)) (acc : RObserved × Router),
     (∀ p ∈ acc.2.realms, Q p.2) → (∀ p ∈ l, Q (p.2.step (.tick ms)).2) →
@@ -409,7 +428,7 @@ theorem realmsOk_step {rt : Router} (h : RealmsOk rt) (op : ROp) : RealmsOk (rt.
         exact realmsOk_setRealm (rt := rt) h ⟨this.1, this.2.1⟩ rt.sessRealm
   | tick ms =>
     rw [step_tick_eq]
-    apply tickFold_all (fun r => RealmInv r ∧ FuelOnly r.panic) ms rt.realms ({}, rt) h
+    apply tickFold_all (fun r => RealmInv r ∧ FuelOnly r.panic) ms rt.realms ({}, { rt with now := rt.now + ms }) h
     intro p hp
     obtain ⟨h1, h2⟩ := h p hp
     have := step_inv h1 h2 (.tick ms)
@@ -438,7 +457,7 @@ theorem realmsOk_step {rt : Router} (h : RealmsOk rt) (op : ROp) : RealmsOk (rt.
         rcases List.mem_append.mp hp with hp | hp
         · exact h p hp
         · rw [List.mem_singleton.mp hp]
-          exact created_ok hcr _
+          exact created_ok_at hcr _ _
       · exact h
 
 theorem createStep_ok {acc : Option Router} (h : ∀ rt, acc = some rt → RealmsOk rt) (cfg : Config) :
